@@ -120,9 +120,15 @@ func sortSpecs(fset *token.FileSet, f *File, specs []Spec) []Spec {
 	}
 
 	// Record positions for specs.
+	// Two specs can share a source line (`"a"; "b"`): count the specs per line.
 	pos := make([]posSpan, len(specs))
+	origLine := make(map[Spec]int, len(specs))
+	specsOnLine := make(map[int]int, len(specs))
 	for i, s := range specs {
 		pos[i] = posSpan{s.Pos(), s.End()}
+		line := lineAt(fset, s.Pos())
+		origLine[s] = line
+		specsOnLine[line]++
 	}
 
 	// Identify comments in this range.
@@ -205,9 +211,13 @@ func sortSpecs(fset *token.FileSet, f *File, specs []Spec) []Spec {
 	for i, s := range specs {
 		if i == len(specs)-1 || !collapse(s, specs[i+1]) {
 			deduped = append(deduped, s)
-		} else {
+		} else if specsOnLine[origLine[s]] == 1 {
+			// Removing s empties its line (unless it shares the line with another
+			// spec); the last line of a file has no next line to be merged with.
 			p := s.Pos()
-			fset.File(p).MergeLine(lineAt(fset, p))
+			if file, line := fset.File(p), lineAt(fset, p); line < file.LineCount() {
+				file.MergeLine(line)
+			}
 		}
 	}
 	specs = deduped
